@@ -192,7 +192,29 @@ func (ex *Exec) gopanic(msg string) {
 		}
 		where += "]"
 	}
-	panic(&goPanic{v: &IfaceV{T: types.Typ[types.String], V: strConst(msg)}, msg: msg + where})
+	panic(&goPanic{v: ex.panicValue(msg), msg: msg + where})
+}
+
+// panicValue: the value a recover() sees. Panics raised by the Go runtime itself (bounds, nil dereference, failed
+// type assertion, unhashable key, nil map) implement runtime.Error; code under test may tell them from other panics
+// (`r.(runtime.Error)`), so they carry the runtime's own string-kinded error types. Panics of the reflect model
+// carry plain strings, as most of reflect's do.
+func (ex *Exec) panicValue(msg string) *IfaceV {
+	if rp := ex.prog.ImportedPackage("runtime"); rp != nil {
+		if rest := strings.TrimPrefix(msg, "runtime error: "); rest != msg {
+			if t := rp.Type("errorString"); t != nil {
+				return &IfaceV{T: t.Type(), V: strConst(rest)}
+			}
+		}
+		for _, pre := range []string{"interface conversion:", "assignment to entry in nil map", "value method called using nil pointer"} {
+			if strings.HasPrefix(msg, pre) {
+				if t := rp.Type("plainError"); t != nil {
+					return &IfaceV{T: t.Type(), V: strConst(msg)}
+				}
+			}
+		}
+	}
+	return &IfaceV{T: types.Typ[types.String], V: strConst(msg)}
 }
 
 // ---------- types ----------
